@@ -302,9 +302,16 @@ def setattr_shape(classes):
     if len(body) != 2 or not isinstance(body[0], ast.If) or not isinstance(body[1], ast.Expr):
         raise ExtractError("LazyMutableClass.__setattr__: unexpected statement shape")
     test = ast.dump(body[0].test)
-    calls_clear = any(isinstance(n, ast.Attribute) and n.attr == "_clear_cache" for n in ast.walk(body[0]))
-    if not calls_clear or body[0].orelse:
-        raise ExtractError("LazyMutableClass.__setattr__: the guarded branch does not call _clear_cache")
+    inner = [s for s in body[0].body if not (isinstance(s, ast.Expr) and isinstance(s.value, ast.Constant))]
+    unconditional = (len(inner) == 1 and isinstance(inner[0], ast.Expr) and isinstance(inner[0].value, ast.Call)
+                     and isinstance(inner[0].value.func, ast.Attribute) and inner[0].value.func.attr == "_clear_cache"
+                     and isinstance(inner[0].value.func.value, ast.Name) and inner[0].value.func.value.id == fn.args.args[0].arg
+                     and not inner[0].value.args and not inner[0].value.keywords)
+    if not unconditional or body[0].orelse:
+        # the model's `assign` clears on the attribute NAME whatever the value is (also when the very same
+        # object is assigned back after an in-place edit); any further condition on the clear is not modelled
+        raise ExtractError("LazyMutableClass.__setattr__: the name test must guard exactly one unconditional "
+                           "`self._clear_cache()` (the clear may not depend on the assigned value)")
     static_clears = "_static_attrs" in test and "In()" in test
     class_clears = ("hasattr" in test and "startswith" in test and "type" in test)
     if not static_clears:
